@@ -6,8 +6,9 @@ Spec:  Verif.Spec.Rlp (reference encoder, frames).
 Only statements and their final proofs live here; lemmas are in Verif.Proofs.Rlp*.
 -/
 import Verif.Proofs.Rlp
+import Verif.Proofs.RlpExact
 namespace Verif.Properties.C46
-open Verif.Model.Rlp Verif.Spec.Rlp Verif.Proofs.Rlp
+open Verif.Model.Rlp Verif.Spec.Rlp Verif.Proofs.Rlp Verif.Proofs.RlpExact
 
 /-- A decode outcome is *graceful*: a value or a returned (user) error — never a Go panic (which
     the runtime reports as an internal error) and never a non-terminating loop. -/
@@ -57,5 +58,49 @@ example : rlpDecodeString [0x81] = .err .incompleteInput := by decide
 example : rlpDecodeString [0xbf, 0x7f, 0xff, 0xff, 0xff, 0xff, 0xff, 0xff, 0xff, 1, 2] = .err .incompleteInput := by
   decide
 example : rlpDecodeString [0x83, 0x64, 0x6f, 0x67] = .ok [0x64, 0x6f, 0x67] := by decide
+
+/-! ## Exactness: the wrappers accept exactly the canonical encodings -/
+
+/-- Every canonical string encoding (payload up to `MaxLongLengthAllowed` bytes) is accepted and
+    decodes to its payload. -/
+theorem string_accepts_canonical (s : Bytes) (hs : s.length ≤ maxLongLength) :
+    rlpDecodeString (encodeString s) = .ok s :=
+  rlpDecodeString_encodeString s hs
+
+example : rlpDecodeString (encodeString [0x64, 0x6f, 0x67]) = .ok [0x64, 0x6f, 0x67] :=
+  string_accepts_canonical _ (by decide)
+/-- long form (56 bytes, header `b8 38`) through the theorem -/
+example : rlpDecodeString (encodeString (List.replicate 56 0x61)) = .ok (List.replicate 56 0x61) :=
+  string_accepts_canonical _ (by decide)
+example : encodeString [0x64, 0x6f, 0x67] = [0x83, 0x64, 0x6f, 0x67] := by decide
+example : (encodeString (List.replicate 56 0x61)).take 3 = [0xb8, 56, 0x61] := by
+  simp [encodeString, header, beBytes]
+
+/-- Nothing else is accepted: an accepted input *is* the canonical encoding of the returned payload
+    (so leading zeros in the length, long form for short payloads, `0x81 b` for `b < 0x80`, trailing
+    bytes, list headers … are all rejected). -/
+theorem string_rejects_rest (inp s : Bytes) (h : rlpDecodeString inp = .ok s) : inp = encodeString s :=
+  (rlpDecodeString_inv inp s h).1
+
+/-- … and the accepted payload is within the supported size. -/
+theorem string_accepted_size (inp s : Bytes) (h : rlpDecodeString inp = .ok s) : s.length ≤ maxLongLength :=
+  (rlpDecodeString_inv inp s h).2
+
+example : rlpDecodeString [0x83, 0x64, 0x6f, 0x67] = .ok [0x64, 0x6f, 0x67] ∧
+    [0x83, 0x64, 0x6f, 0x67] = encodeString [0x64, 0x6f, 0x67] := by decide
+
+/-- A non-canonical input is a returned (user) error: not a value, not a panic, not a hang. -/
+theorem string_noncanonical_is_user_error (inp : Bytes) (h : ∀ s, inp ≠ encodeString s) :
+    ∃ e, rlpDecodeString inp = .err e := by
+  rcases rlpDecodeString_no_panic inp with ⟨s, hs⟩ | he
+  · exact absurd (string_rejects_rest inp s hs) (h s)
+  · exact he
+
+/-- `81 05` (single byte below 0x80 with a header), `b8 01 61` (long form for a short payload) and
+    `b9 00 38 …` (leading zero in the length) are user errors. -/
+example : rlpDecodeString [0x81, 0x05] = .err .nonCanonical := by decide
+example : rlpDecodeString [0xb8, 0x01, 0x61] = .err .nonCanonical := by decide
+example : rlpDecodeString (0xb9 :: 0x00 :: 0x38 :: List.replicate 56 0x61) = .err .nonCanonical := by decide
+example : rlpDecodeString [0x83, 0x64, 0x6f, 0x67, 0x00] = .err .trailingBytes := by decide
 
 end Verif.Properties.C46
